@@ -29,6 +29,7 @@ type Run struct {
 	Pres     string                  `json:"pres"`
 	Err      string                  `json:"err"`
 	Panic    bool                    `json:"panic"`
+	Hang     bool                    `json:"hang"`
 	Res      Result                  `json:"res"`
 	Accepted map[string]abs.Seq[int] `json:"accepted"`
 	WarnOk   abs.Seq[bool]           `json:"warnOk"`
@@ -69,7 +70,35 @@ func ParseOnce(f Feed, o Opts, p Presentation) (run Run, harnessErr error) {
 			run.Panic = true
 		}
 	}()
-	s, err := gtfs.ParseStatic(b, gtfs.ParseStaticOptions{InheritWheelchairBoarding: o.Inherit})
+	// the parse runs under a watchdog: a call that does not return within 10 s is a hang
+	type outcome struct {
+		s   *gtfs.Static
+		err error
+		pan any
+	}
+	ch := make(chan outcome, 1)
+	go func() {
+		defer func() {
+			if r := recover(); r != nil {
+				ch <- outcome{pan: r}
+			}
+		}()
+		s, err := gtfs.ParseStatic(b, gtfs.ParseStaticOptions{InheritWheelchairBoarding: o.Inherit})
+		ch <- outcome{s: s, err: err}
+	}()
+	var s *gtfs.Static
+	var err error
+	select {
+	case out := <-ch:
+		if out.pan != nil {
+			panic(out.pan)
+		}
+		s, err = out.s, out.err
+	case <-time.After(10 * time.Second):
+		run.Err = "hang: ParseStatic did not return within 10s"
+		run.Hang = true
+		return
+	}
 	if err != nil {
 		run.Err = "error: " + err.Error()
 		return
@@ -140,8 +169,11 @@ func RunCase(id string, c Case, seed int64, w *abs.Writer) (crashes []string, er
 		if len(r.Err) > 6 && r.Err[:6] == "panic:" {
 			crashes = append(crashes, r.Err)
 		}
-		if r.Roots == "hang" {
-			crashes = append(crashes, "Stop.Root does not terminate")
+		if r.Roots == "hang" || r.Roots == "cycle" {
+			crashes = append(crashes, "Stop.Root does not terminate (parent cycle)")
+		}
+		if r.Hang {
+			crashes = append(crashes, r.Err)
 		}
 	}
 	w.Write(rec)
